@@ -1,5 +1,5 @@
 (* C10 — Logger sees every order, cancel, fill and expiry exactly once, in order. *)
-Require Import Pams.Prelude Pams.Match Pams.Market Pams.Sim Pams.SimLift Pams.SimInv Pams.SimProps.
+Require Import Pams.Prelude Pams.Match Pams.Market Pams.Sim Pams.SimLift Pams.SimInv Pams.SimProps Pams.SimMarks.
 Open Scope Z_scope.
 
 (* For EVERY configuration, runner tape, agent behaviour and fundamental path: in a run that ends normally the sequence of
@@ -27,3 +27,35 @@ Theorem C10_run_ends_flushed : forall c tape batches funds,
   s_err (run c tape batches funds) = None -> s_pending (run c tape batches funds) = [].
 Proof. exact run_end_flushed. Qed.
 Print Assumptions C10_run_ends_flushed.
+
+(* ---- the begin / end records ---- *)
+(* [marks] keeps the simulation / session / market-step begin and end records of the event stream.  For every configuration with
+   distinct market ids, every tape of runner decisions, every agent behaviour and every fundamental path, a run that ends without
+   exception wrote exactly: simulation begin; per session (configuration order) session begin, per step a step-begin record for
+   every market then a step-end record for every market, session end; simulation end - and none of them is left in the queue. *)
+Theorem C10_begin_end_records_of_a_run : forall c tape batches funds, NoDup (map mc_id (c_markets c)) ->
+  let s := run c tape batches funds in
+  let ids := map mc_id (c_markets c) in
+  ok s = true ->
+  marks (events_of s) = [MSimB] ++ flat_map (session_marks ids) (mk_sessions (c_sessions c) 0) ++ [MSimE] /\ marks (s_pending s) = [].
+Proof. exact begin_end_records_of_a_run. Qed.
+Print Assumptions C10_begin_end_records_of_a_run.
+
+(* per step: one step-begin record per market, then - after the whole order phase, which writes none - one step-end record per
+   market; the clock update writes none *)
+Theorem C10_one_step_writes_begin_then_end_records : forall M s, wrote M s -> wrote (M ++ step_marks (mids s)) (one_step s).
+Proof. exact one_step_wrote. Qed.
+Print Assumptions C10_one_step_writes_begin_then_end_records.
+
+Theorem C10_order_phase_writes_no_begin_end_record : forall M s, wrote M s -> wrote M (update_markets s).
+Proof. exact wrote_update_markets. Qed.
+Print Assumptions C10_order_phase_writes_no_begin_end_record.
+
+Example C10_marks_nonvacuous :
+  let c := mkCfg [mkMC 0 (1#1) (300#1) None 1; mkMC 1 (1#1) (300#1) None 1] []
+                 [mkSC 7 1 false false 1 1 (0#1); mkSC 8 2 false false 1 1 (0#1)] [] in
+  let funds := flat_map (fun t => [(0, t, 300#1); (1, t, 300#1)]) [0;1;2;3] in
+  let s := run c [] [] funds in
+  ok s = true /\ length (marks (events_of s)) = 18%nat /\
+  firstn 7 (marks (events_of s)) = [MSimB; MSessB 7; MStep 9 0; MStep 9 1; MStep 10 0; MStep 10 1; MSessE 7].
+Proof. exact marks_example. Qed.
